@@ -212,6 +212,25 @@ func GenForeignCase(r *Rng, id int, backend string, p ForeignParams) Case {
 	c.InitQueries = GenQueries(r, v, p.Queries)
 	gp := GenParams{Backend: backend, Queries: p.Queries}
 	n := r.Intn(p.Ops + 1)
+	if freeIDs && len(v.ids) > 0 && r.Chance(1, 2) {
+		// an image whose IDs do not follow the slots, modified the way a writer would: add, delete
+		// the object of the first slot, add twice (whatever the handle remembers about free slots
+		// or IDs must hold for such images too)
+		small := func() DInput {
+			return DInput{Type: DataGeneric, Content: GenContent(r, 1+r.Intn(40)), FailAfter: -1, GroupOpt: r.Intn(2)}
+		}
+		ops := []Op{
+			{Kind: OpAdd, DI: small(), T: genTOpt(r, gp)},
+			{Kind: OpDelete, ByID: true, Sel: Selector{Kind: SID, N: int64(v.ids[0])}, T: genTOpt(r, gp)},
+			{Kind: OpAdd, DI: small(), T: genTOpt(r, gp)},
+			{Kind: OpAdd, DI: small(), T: genTOpt(r, gp)},
+			{Kind: OpSetMeta, ID: v.ids[len(v.ids)-1], Md: Meta{Kind: MdRaw, Raw: GenContent(r, 8)}, T: genTOpt(r, gp)},
+		}
+		for _, op := range ops {
+			c.Steps = append(c.Steps, Step{Op: op, Queries: GenQueries(r, v, p.Queries)})
+		}
+		return c
+	}
 	for i := 0; i < n; i++ {
 		op := GenOp(r, gp, v)
 		c.Steps = append(c.Steps, Step{Op: op, Queries: GenQueries(r, v, p.Queries)})
